@@ -22,6 +22,18 @@ def run(c, a):
     c.gen_parallel(jobs)
     pairs = [(o, o.replace("c13wvec-", "c13wev-")) for o in outs]
     c.harness_parallel("ops", pairs, args=["prop=C12"])
-    ev = c.concat([p[1] for p in pairs] + [ev1], c.path("c12events.ndjson"))
+    # domain-shaped argument lists of the string / number / formatting functions (C14Gen) as further concrete bases
+    from checks.c14 import FNS as FNS14
+    jobs14, outs14 = [], []
+    for i, fn in enumerate(FNS14):
+        if ">" in fn:
+            continue
+        out = c.path("c14wvec-%d.ndjson" % i)
+        jobs14.append(("C14Gen", {"VFN": fn, "VMODE": "weak", "VTIER": c.tier, "VOUT": out}))
+        outs14.append(out)
+    c.gen_parallel(jobs14, seeds=[c.seed * 1000 + i for i in range(len(jobs14))])
+    pairs14 = [(o, o.replace("c14wvec-", "c14wev-")) for o in outs14]
+    c.harness_parallel("ops", pairs14, args=["prop=C12"])
+    ev = c.concat([p[1] for p in pairs] + [p[1] for p in pairs14] + [ev1], c.path("c12events.ndjson"))
     c.sample_events(ev, 2, lambda l: '"ok":true' in l and '"fn:' in l and '"st":"unk"' in l)
     c.trace("StdlibTrace", ev)
